@@ -10,6 +10,7 @@ from sim.runner import Check
 from sim.world import BACKENDS
 
 TOL = 2000  # the property's own "about 2 ms", in microseconds
+CLIPPING_BACKENDS = ("peewee",)  # "the one backend that clips"
 H24 = 86_400_000_000
 HOUR = 3_600_000_000
 
@@ -208,10 +209,14 @@ class C03(Check):
                 raise Violation("must_exclude", "read over %s returned event %s which lies outside the window by more than 2 ms" % (win, short(st)), {"op": op})
             if t[3] != st[3]:
                 raise Violation("clip_shape", "returned event id %r has data differing from the stored event" % (t[0],), {"op": op})
-            if (t[1], t[2]) != (st[1], st[2]):
+            clipped = (t[1], t[2]) != (st[1], st[2])
+            if clipped or world.backend in CLIPPING_BACKENDS:
                 # a backend that clips must return the stored event cut to the window and nothing else:
-                # both edges are those of (stored interval) intersected with (window), within the tolerance
-                pr["clipped_event_returned"] += 1
+                # both edges are those of (stored interval) intersected with (window), within the tolerance.
+                # On the one backend that clips (pinned by the repo's own test_get_event_trimming) an event
+                # that reaches out of the window by more than the tolerance may not come back uncut either.
+                if clipped:
+                    pr["clipped_event_returned"] += 1
                 s, e = st[1], st[1] + st[2]
                 rs_, re_ = t[1], t[1] + t[2]
                 cut_s = s if ws is None else max(s, ws)
